@@ -313,14 +313,20 @@ def playback(feature, full_name, timeout_s=600):
     except subprocess.TimeoutExpired:
         return None, 'playback timed out'
     text = p.stdout
-    m = re.search(r'let concrete_vals: Vec<Vec<u8>> = vec!\[(.*?)\];', text, re.S)
-    if not m:
-        return None, 'no concrete values in output'
-    vals = []
-    for vm in re.finditer(r'vec!\[([^\]]*)\]', m.group(1)):
-        bs = [int(x) for x in re.findall(r'\d+', vm.group(1))]
-        vals.append(''.join('%02x' % b for b in bs))
-    return vals, ''
+    # one generated test per failed check (and one for the reachability cover): take the first ASSERTION witness
+    best = None
+    for bm in re.finditer(r'Check for `(\w+)`: "+([^"\n]*)"+.*?let concrete_vals: Vec<Vec<u8>> = vec!\[(.*?)\];', text, re.S):
+        if bm.group(1) != 'assertion':
+            continue
+        vals = []
+        for vm in re.finditer(r'vec!\[([^\]]*)\]', bm.group(3)):
+            bs = [int(x) for x in re.findall(r'\d+', vm.group(1))]
+            vals.append(''.join('%02x' % b for b in bs))
+        best = vals
+        break
+    if best is None:
+        return None, 'no concrete values for a failed assertion in the output'
+    return best, ''
 
 
 # ---------------------------------------------------------------------------------------------------------------------
